@@ -1,6 +1,8 @@
 // gexec: File.Generate on real files for the import (C18) and purity (C14) checks.
 //   GEN <mode> <rootfile>                      one Generate; prints ok <type names> sha=<hash> | cycle | err <msg>
 //   CONC <mode> <rootfile> <goroutines> <reps> many concurrent Generate / Validate calls on ONE shared File
+//   MIX <rootfile> <goroutines> <reps>         Generate on ONE shared File under DIFFERENT option sets, in sequence and concurrently:
+//                                               every output must equal the output a freshly parsed File gives under the same options
 //   PURE <file> <reps>                         ReadFile / Validate / Format repeated on the same bytes
 package main
 
@@ -118,6 +120,74 @@ func main() {
 			wg.Wait()
 			changed := !reflect.DeepEqual(stripFileName(bf), stripFileName(snapshot))
 			fmt.Fprintf(out, "conc first=%q differing=%d file-changed=%v\n", strings.SplitN(res0, " ", 2)[0], diffs, changed)
+		case "MIX":
+			g, _ := strconv.Atoi(t[2])
+			reps, _ := strconv.Atoi(t[3])
+			variants := []bebop.GenerateSettings{}
+			for bits := 0; bits < 16; bits++ {
+				gs := bebop.GenerateSettings{PackageName: "gen", GenerateUnsafeMethods: bits&1 != 0, PrivateDefinitions: bits&2 != 0,
+					GenerateFieldTags: bits&4 != 0, AlwaysUsePointerReceivers: bits&8 != 0}
+				variants = append(variants, gs)
+				gs.ImportGenerationMode = bebop.ImportGenerationModeCombined
+				variants = append(variants, gs)
+			}
+			gen := func(bf bebop.File, gs bebop.GenerateSettings) (res string) {
+				defer func() {
+					if r := recover(); r != nil {
+						res = fmt.Sprintf("panic %v", r)
+					}
+				}()
+				var b bytes.Buffer
+				if err := bf.Generate(&b, gs); err != nil {
+					return "err " + strings.ReplaceAll(err.Error(), "\n", " ")
+				}
+				return fmt.Sprintf("ok %x", sha256.Sum256(b.Bytes()))
+			}
+			refs := make([]string, len(variants))
+			bad := ""
+			for i, gs := range variants {
+				fresh, err := read(t[1])
+				if err != nil {
+					bad = "err read " + err.Error()
+					break
+				}
+				refs[i] = gen(fresh, gs)
+			}
+			if bad != "" {
+				fmt.Fprintln(out, bad)
+				break
+			}
+			shared, _ := read(t[1])
+			snapshot, _ := read(t[1])
+			seqDiffs := 0
+			for r := 0; r < 3; r++ {
+				for i := range variants {
+					k := (i*7 + r*5) % len(variants)
+					if gen(shared, variants[k]) != refs[k] {
+						seqDiffs++
+					}
+				}
+			}
+			var mu sync.Mutex
+			concDiffs := 0
+			var wg sync.WaitGroup
+			for w := 0; w < g; w++ {
+				wg.Add(1)
+				go func(w int) {
+					defer wg.Done()
+					for r := 0; r < reps; r++ {
+						k := (w*3 + r) % len(variants)
+						if gen(shared, variants[k]) != refs[k] {
+							mu.Lock()
+							concDiffs++
+							mu.Unlock()
+						}
+					}
+				}(w)
+			}
+			wg.Wait()
+			changed := !reflect.DeepEqual(stripFileName(shared), stripFileName(snapshot))
+			fmt.Fprintf(out, "mix sequential-differing=%d concurrent-differing=%d file-changed=%v\n", seqDiffs, concDiffs, changed)
 		case "PURE":
 			reps, _ := strconv.Atoi(t[2])
 			data, err := os.ReadFile(t[1])
